@@ -97,7 +97,7 @@ def classify_site(P, body, bi, kind, name, t):
                             return "L", "constant index %d under a dominating length test (len %s %d)" % (idx, op, n)
     arg = ""
     if t["k"] == "call" and t["args"]:
-        arg = term_str(body.call_args(bi)[0])
+        arg = body.cstr(body.call_args(bi)[0])    # variables are named by their type: the table never depends on a spelling
     fn = mir.short(body.id) if not body.id.count("{closure") else body.id.split("::", 2)[-1] if False else body.id
     for fre, kre, are, cls, reason in TABLE:
         if re.search(fre, body.id) and re.search(kre, kind) and re.search(are, arg):
@@ -135,7 +135,7 @@ def run(P, C, tier):
         for bi, kind, name, t in ss:
             cls, reason = classify_site(P, b, bi, kind, name, t)
             classes[cls] = classes.get(cls, 0) + 1
-            arg = term_str(b.call_args(bi)[0])[:50] if t["k"] == "call" and t["args"] else ""
+            arg = b.cstr(b.call_args(bi)[0])[:50] if t["k"] == "call" and t["args"] else ""
             base = "%s|%s|%s" % (mir.short(b.id) if "{closure" not in b.id else b.id.split("database::")[-1].split("network::")[-1].split("synchronisation::")[-1], kind, re.sub(r"[^A-Za-z0-9_:.]+", "_", arg)[:40])
             n = seen.get(base, 0)
             seen[base] = n + 1
@@ -170,8 +170,8 @@ def run(P, C, tier):
     try:
         vp = P.body("parameter::Variables::validate_params")
         C.saw(vp)
-        rem = [bi for bi, t in vp.calls_to(r"HashMap::remove$") if field_path(vp.call_args(bi)[0]).endswith("params.params")]
-        ins = [bi for bi, t in vp.calls_to(r"HashMap::insert$") if field_path(vp.call_args(bi)[0]).endswith("params.params")]
+        rem = [bi for bi, t in vp.calls_to(r"HashMap::remove$") if vp.cpath(vp.call_args(bi)[0]) == "‹Parameters›.params"]
+        ins = [bi for bi, t in vp.calls_to(r"HashMap::insert$") if vp.cpath(vp.call_args(bi)[0]) == "‹Parameters›.params"]
         hdr = [bi for bi, t in vp.live_calls() if "d:ForLoop" in t["at"][1] and callee_name(t).endswith("::next")]
         ok = len(rem) == 1 and bool(ins) and len(hdr) >= 1
         det = "remove sites %d, insert sites %d" % (len(rem), len(ins))
@@ -211,9 +211,16 @@ def run(P, C, tier):
             bounded = False
             for s, vals, term in b.guards(bi, expand_vars=False):
                 atom, truth = mir.cond_atoms(term, vals)
-                if atom[0] == "bin" and atom[1] in ("Gt", "Ge") and truth is False and field_path(atom[2]) == "len":
+                if atom[0] != "bin" or atom[1] not in ("Gt", "Ge", "Lt", "Le"):
+                    continue
+                # the compared value is the received length (flows from read_u32), the bound is not
+                from_peer = bool(mir.flow_sources(b, atom[2], r"read_u32$")[1])
+                bound_from_peer = bool(mir.flow_sources(b, atom[3], r"read_u32$")[1])
+                if not from_peer or bound_from_peer:
+                    continue
+                if atom[1] in ("Gt", "Ge") and truth is False:
                     bounded = True
-                if atom[0] == "bin" and atom[1] in ("Lt", "Le") and truth is True and field_path(atom[2]) == "len" and "max" in field_path(atom[3]):
+                if atom[1] in ("Lt", "Le") and truth is True:
                     bounded = True
             owner = b.id.split("network::")[-1]
             k = "%s:%s" % (owner, "alloc" if is_alloc else "slice")
